@@ -1064,11 +1064,26 @@ impl ImplPrimitive {
                         _ => false,
                     }
                 }
+                // The product of a map with itself has no map keys, at any depth of boxes
+                fn drop_map_keys(val: &mut Value) {
+                    val.meta.take_map_keys();
+                    let has_keys =
+                        |b: &Boxed| b.0.meta.map_keys.is_some() || matches!(b.0, Value::Box(_));
+                    if let Value::Box(arr) = val
+                        && arr.data.iter().any(has_keys)
+                    {
+                        for b in arr.data.as_mut_slice() {
+                            drop_map_keys(&mut b.0);
+                        }
+                    }
+                }
                 if has_no_chars(&val) {
                     let abs = val.abs(env)?;
                     abs.clone().mul(abs, env)
                 } else {
-                    val.square_abs(env)
+                    let mut squared = val.square_abs(env)?;
+                    drop_map_keys(&mut squared);
+                    Ok(squared)
                 }
             })?,
             ImplPrimitive::NegAbs => env.monadic_env(Value::neg_abs)?,
